@@ -23,6 +23,7 @@ import (
 	"fmt"
 	"os"
 	"os/exec"
+	"path/filepath"
 	"reflect"
 	"regexp"
 	"runtime"
@@ -32,6 +33,7 @@ import (
 	"sync"
 	"sync/atomic"
 	"time"
+	"unsafe"
 
 	"github.com/DOSNetwork/core/log"
 
@@ -270,6 +272,32 @@ func settle(self int) bool {
 	return false
 }
 
+// chanClosed reads runtime.hchan.closed (qcount uint; dataqsiz uint; buf unsafe.Pointer; elemsize uint16;
+// closed uint32: offset 28 on 64-bit, Go 1.2x) without touching the channel.  closedFlagOK is the result of a
+// self-test at start-up on channels of this process; when it fails the harness falls back to a receive.
+func chanClosed(ch reflect.Value) bool {
+	return *(*uint32)(unsafe.Pointer(ch.Pointer() + 28)) != 0
+}
+
+var closedFlagOK = func() bool {
+	if unsafe.Sizeof(uintptr(0)) != 8 {
+		return false
+	}
+	a, b, c := make(chan int), make(chan error, 3), make(chan []byte, 1)
+	b <- nil
+	va, vb, vc := reflect.ValueOf(a), reflect.ValueOf(b), reflect.ValueOf(c)
+	if chanClosed(va) || chanClosed(vb) || chanClosed(vc) {
+		return false
+	}
+	close(a)
+	close(b)
+	if !chanClosed(va) || !chanClosed(vb) || chanClosed(vc) {
+		return false
+	}
+	close(c)
+	return chanClosed(vc)
+}()
+
 func selfID() int {
 	buf := make([]byte, 64)
 	n := runtime.Stack(buf, false)
@@ -392,14 +420,23 @@ func runOnce(s *scen) (outcome string, err error) {
 		if !ok {
 			return "", fmt.Errorf("unknown channel %s", o)
 		}
-		// closed? the buffered items of a closed channel come first; a value beyond them means a
-		// blocked sender, so the channel is open
 		st := "open"
-		for n := ch.Len(); n > 0; n-- {
-			reflect.Select([]reflect.SelectCase{{Dir: reflect.SelectRecv, Chan: ch}, {Dir: reflect.SelectDefault}})
-		}
-		if chosen, _, ok := reflect.Select([]reflect.SelectCase{{Dir: reflect.SelectRecv, Chan: ch}, {Dir: reflect.SelectDefault}}); chosen == 0 && !ok {
-			st = "closed"
+		if closedFlagOK {
+			// read the channel's closed flag: a receive would take the value of a sender of the code under
+			// test that is blocked on this channel and so let it run on (close its other channels, return)
+			// between this observation and the next one
+			if chanClosed(ch) {
+				st = "closed"
+			}
+		} else {
+			// closed? the buffered items of a closed channel come first; a value beyond them means a
+			// blocked sender, so the channel is open
+			for n := ch.Len(); n > 0; n-- {
+				reflect.Select([]reflect.SelectCase{{Dir: reflect.SelectRecv, Chan: ch}, {Dir: reflect.SelectDefault}})
+			}
+			if chosen, _, ok := reflect.Select([]reflect.SelectCase{{Dir: reflect.SelectRecv, Chan: ch}, {Dir: reflect.SelectDefault}}); chosen == 0 && !ok {
+				st = "closed"
+			}
 		}
 		name := o
 		if i := strings.Index(name, "#"); i >= 0 {
@@ -429,6 +466,7 @@ func feeder(ch reflect.Value, prog string, gate, release chan struct{}, relCase 
 	select {
 	case <-gate:
 	case <-release:
+		return // never started by the script: it neither sends nor closes (as the model's feeder, which waits at its gate)
 	}
 	k := 0
 	closes := strings.Contains(prog, "c")
@@ -698,7 +736,96 @@ func oracle(s *scen, outs []string) string {
 // not observable within a test run, proved in the model instead
 var handedOff = map[string]bool{"dosnode.dispatchSign.out": true, "dkg.askMembers.out": true}
 
+// ---- prefetch: the case lines of a run are executed by a small pool of workers ----------------------
+//
+// Every line is self-contained and runs in child processes, so lines are independent of each other; the
+// framework asks for them one by one (corpus first, then the generator's), the pool computes them ahead.
+// The results are the same as in a sequential run; only the wall time changes (review: 478 s quick tier).
+
+type pending struct {
+	done chan struct{}
+	res  h.Result
+}
+
+var (
+	prefMu  sync.Mutex
+	pref    = map[string]*pending{}
+	prefQ   = make(chan string, 4096)
+	prefOn  sync.Once
+	workers = 4
+)
+
+func prefetch(lines []string) {
+	prefOn.Do(func() {
+		for i := 0; i < workers; i++ {
+			go func() {
+				for l := range prefQ {
+					prefMu.Lock()
+					p := pref[l]
+					prefMu.Unlock()
+					p.res = dispatch(l)
+					close(p.done)
+				}
+			}()
+		}
+	})
+	for _, l := range lines {
+		prefMu.Lock()
+		if _, ok := pref[l]; !ok {
+			pref[l] = &pending{done: make(chan struct{})}
+			prefMu.Unlock()
+			prefQ <- l
+			continue
+		}
+		prefMu.Unlock()
+	}
+}
+
+// corpusLines: the lines the framework runs before the generator (VERIF_CORPUS/C14/*.txt)
+func corpusLines() []string {
+	dir := os.Getenv("VERIF_CORPUS")
+	if dir == "" {
+		return nil
+	}
+	files, _ := filepath.Glob(filepath.Join(dir, "C14", "*.txt"))
+	sort.Strings(files)
+	var out []string
+	for _, f := range files {
+		b, err := os.ReadFile(f)
+		if err != nil {
+			continue
+		}
+		for _, l := range strings.Split(string(b), "\n") {
+			l = strings.TrimSpace(l)
+			if l != "" && !strings.HasPrefix(l, "#") {
+				out = append(out, l)
+			}
+		}
+	}
+	return out
+}
+
+var corpusOnce sync.Once
+
 func execLine(line string) h.Result {
+	if strings.HasPrefix(line, "child ") {
+		return dispatch(line)
+	}
+	// the first line of a `gen` run is a corpus line: compute the whole corpus ahead
+	if len(os.Args) > 1 && os.Args[1] == "gen" {
+		corpusOnce.Do(func() { prefetch(corpusLines()) })
+	}
+	prefMu.Lock()
+	p, ok := pref[line]
+	prefMu.Unlock()
+	if ok {
+		<-p.done
+		return p.res
+	}
+	return dispatch(line)
+}
+
+func dispatch(line string) h.Result {
 	if strings.HasPrefix(line, "child spin ") {
 		o, d, err := runSpinOnce(parseSpin(strings.TrimPrefix(line, "child ")))
 		if err != nil {
